@@ -362,7 +362,10 @@ def run(ctx, replay=None):
         prog, npenv = programs.gen_clean_program(rng, depth, ext=True)
         names = [st["out"] for st in prog]
         roots = [names[-1]] + rng.sample(names[:-1], min(len(names) - 1, rng.randint(0, 2)))
-        zoo = [rng.choice(zoo_names) if rng.random() < 0.25 else None for _ in roots]
+        anc = programs.prog_ancestry(prog)
+        # zoo ops capture the advertised layout: over a sliding-window reduction that is the documented
+        # swv-layout-drift family (.blocks / boolean mask / vindex above the native-layout rewrite)
+        zoo = [rng.choice(zoo_names) if rng.random() < 0.25 and "swv_reduce" not in anc[r] else None for r in roots]
         for opt in (True, False):
             case = {"prog": prog, "roots": roots, "zoo": zoo if any(zoo) else None, "optimize": opt, "names": it % 3 == 0}
             fails = run_case(ctx, case)
